@@ -4,10 +4,20 @@ package executor
 
 // Verification hooks (build tag `verif`): add-only accessors for the external harness.
 
-import "github.com/digitalocean/firebolt/message"
+import (
+	"github.com/digitalocean/firebolt/fbcontext"
+	"github.com/digitalocean/firebolt/message"
+)
 
 // VerifDeliverMessage exposes deliverMessage.
 func (e *Executor) VerifDeliverMessage(msg message.Message) []error { return e.deliverMessage(msg) }
 
 // VerifPrepareSource exposes prepareSource (what superviseSource does before it restarts a failed source).
 func (e *Executor) VerifPrepareSource() { e.prepareSource() }
+
+// VerifNodeSendMessage / VerifNodeAckMessage expose the functions a node's fbcontext is configured with (what
+// FBContext.SendMessage / AckMessage end up calling when kafka messaging is configured).
+func VerifNodeSendMessage(msg fbcontext.Message) error { return sendMessage(msg) }
+
+// VerifNodeAckMessage: see VerifNodeSendMessage.
+func VerifNodeAckMessage(msg fbcontext.Message) error { return ackMessage(msg) }
